@@ -187,12 +187,16 @@ def check_coverage(ctx, chk):
     for meth, tab, key in (("_host_is_vulnerable_to_exploit", "services", "service"),
                            ("_host_is_vulnerable_to_privesc", "processes", "process")):
         fi, ip, s, cn = method_run(ctx, meth)
-        h, d = fi.rparams[1], fi.rparams[2]
         true_f = f_or([f_and([cn.conj(pc), cn.formula(t)]) for pc, t in s.returns])
-        want = f_and([A(f"{h}.{tab}[{d}['{key}']]"),
-                      f_or([A(f"None is {d}['os']"), A(f"{h}.os[{d}['os']]")])])
+        # (which of the two parameters is the host and which the definition is not an interface:
+        # the one whose .services / .os is read is the host)
+        ok = False
+        for h, d in ((fi.rparams[1], fi.rparams[2]), (fi.rparams[2], fi.rparams[1])):
+            want = f_and([A(f"{h}.{tab}[{d}['{key}']]"),
+                          f_or([A(f"None is {d}['os']"), A(f"{h}.os[{d}['os']]")])])
+            ok = ok or bool(f_equiv(true_f, want))
         chk.ob("C16.coverage", f"{meth}: host runs the {key} and (definition OS is None or host "
-               "runs it)", f_equiv(true_f, want), f_show(true_f)[:300], fi.module.path)
+               "runs it)", ok, f_show(true_f)[:300], fi.module.path)
 
 
 def check_patch_one_host(ctx, chk):
@@ -324,6 +328,9 @@ def check_patching(ctx, chk):
     try:
         fi, ip, s, cn = method_run(ctx, "_update_host_os")
         host, osn = fi.rparams[1], fi.rparams[2]
+        if not any(ev.kind == "store" and ev.data["target"] == "sub"
+                   and cn.show(ev.data["base"]) == f"{host}.os" for ev in s.events):
+            host, osn = osn, host         # (parameter order is not an interface)
         sts = [ev for ev in s.events if ev.kind == "store" and ev.data["target"] == "sub"
                and cn.show(ev.data["base"]) == f"{host}.os"]
         clear = [ev for ev in sts if ev.data["value"] in (C(False), C(0))
